@@ -10,15 +10,16 @@ open Um Um.Slots
 
 /-- same store up to the global epoch -/
 def SameButEpoch (s' s : Store) : Prop :=
-  s'.clusters = s.clusters ∧ s'.proxies = s.proxies ∧ s'.failed = s.failed ∧ s'.failures = s.failures
+  s'.clusters = s.clusters ∧ s'.proxies = s.proxies ∧ s'.failed = s.failed ∧ s'.failures = s.failures ∧
+    s'.ordered = s.ordered
 
-theorem SameButEpoch.refl (s : Store) : SameButEpoch s s := ⟨rfl, rfl, rfl, rfl⟩
-theorem SameButEpoch.bump (s : Store) : SameButEpoch s.bump s := ⟨rfl, rfl, rfl, rfl⟩
+theorem SameButEpoch.refl (s : Store) : SameButEpoch s s := ⟨rfl, rfl, rfl, rfl, rfl⟩
+theorem SameButEpoch.bump (s : Store) : SameButEpoch s.bump s := ⟨rfl, rfl, rfl, rfl, rfl⟩
 theorem SameButEpoch.of_eq {s' s : Store} (h : s' = s) : SameButEpoch s' s := h ▸ SameButEpoch.refl s
 
 theorem SameButEpoch.eq {s' s : Store} (h : SameButEpoch s' s) :
     s' = { s with globalEpoch := s'.globalEpoch } := by
-  obtain ⟨h1, h2, h3, h4⟩ := h
+  obtain ⟨h1, h2, h3, h4, h5⟩ := h
   cases s'; cases s; simp_all
 
 theorem removeProxy_refusal {s : Store} {a : String} {e : Err} (h : (removeProxy s a).2 = R.err e) :
@@ -273,19 +274,23 @@ theorem forceBumpAllEpoch_refusal {s : Store} {ep : Nat} {e : Err} (h : (forceBu
 
 /-- `add_proxy` is the one non-atomic refusal: re-registering an existing address answers
 `ALREADY_EXISTED` but clears that address's failed mark and failure reports (by design) -/
-theorem addProxy_refusal {s : Store} {a n0 n1 : String} {ho : Option String} {e : Err}
-    (h : (addProxy s a n0 n1 ho).2 = R.err e) :
-    (e = .invalidProxyAddress ∧ (addProxy s a n0 n1 ho).1 = s) ∨
-    (e = .alreadyExisted ∧ (addProxy s a n0 n1 ho).1.clusters = s.clusters ∧
-      (addProxy s a n0 n1 ho).1.proxies = s.proxies ∧
-      (addProxy s a n0 n1 ho).1.failed = s.failed.filter (· != a) ∧
-      (addProxy s a n0 n1 ho).1.failures = s.failures.filter (·.1 != a)) := by
+theorem addProxy_refusal {s : Store} {a n0 n1 : String} {ho : Option String} {io : Option Nat} {e : Err}
+    (h : (addProxy s a n0 n1 ho io).2 = R.err e) :
+    ((e = .invalidProxyAddress ∨ e = .missingIndex) ∧ (addProxy s a n0 n1 ho io).1 = s) ∨
+    (e = .alreadyExisted ∧ (addProxy s a n0 n1 ho io).1.clusters = s.clusters ∧
+      (addProxy s a n0 n1 ho io).1.proxies = s.proxies ∧
+      (addProxy s a n0 n1 ho io).1.failed = s.failed.filter (· != a) ∧
+      (addProxy s a n0 n1 ho io).1.failures = s.failures.filter (·.1 != a)) := by
   unfold addProxy at h ⊢
   split
-  · rename_i hc; simp only [hc, if_true] at h; cases h; exact Or.inl ⟨rfl, rfl⟩
+  · rename_i hc; simp only [hc, if_true] at h; cases h; exact Or.inl ⟨Or.inl rfl, rfl⟩
   · rename_i hc
     simp only [hc, if_false] at h
     simp only at h ⊢
+    split
+    · rename_i hidx; simp only [hidx] at h; cases h; exact Or.inl ⟨Or.inr rfl, rfl⟩
+    rename_i idx hidx
+    simp only [hidx] at h
     by_cases hex : (s.findProxy a).isSome = true
     · simp only [hex, if_true] at h ⊢
       cases h
